@@ -19,6 +19,20 @@ type c09Base struct {
 	Exp  []ExpData
 }
 
+// c09MoreBases: larger units and the second table_id variants (thorough tier).
+func c09MoreBases() []c09Base {
+	eit, sdt, nit, pmt := modelEIT(12), modelSDT(10), modelNIT(6), modelPMT(1, 0x100, 14)
+	patA, patB, patC := modelPAT(1, 0x1000), modelPAT(2, 0x1001, 3, 0x1002), modelPAT(4, 0x1003)
+	return []c09Base{
+		{"EIT-3-packets", 0x12, [][]byte{SecEIT(eit, ref.SecHdr{TableID: 0x6f, CNI: true})}, []ExpData{{Kind: "EIT", Table: eit}}},
+		{"SDT-0x46-big", 0x11, [][]byte{SecSDT(sdt, ref.SecHdr{TableID: 0x46, CNI: true})}, []ExpData{{Kind: "SDT", Table: sdt}}},
+		{"NIT-0x41", 0x10, [][]byte{SecNIT(nit, ref.SecHdr{TableID: 0x41, CNI: true})}, []ExpData{{Kind: "NIT", Table: nit}}},
+		{"PMT-2-packets", 0x1000, [][]byte{SecPMT(pmt, ref.SecHdr{CNI: true, Version: 31})}, []ExpData{{Kind: "PMT", Table: pmt}}},
+		{"PAT-3-sections", 0, [][]byte{SecPAT(patA, ref.SecHdr{CNI: true, LSN: 2}), SecPAT(patB, ref.SecHdr{CNI: true, SN: 1, LSN: 2}), SecPAT(patC, ref.SecHdr{CNI: true, SN: 2, LSN: 2})},
+			[]ExpData{{Kind: "PAT", Table: patA}, {Kind: "PAT", Table: patB}, {Kind: "PAT", Table: patC}}},
+	}
+}
+
 func c09Bases() []c09Base {
 	pat := modelPAT(1, 0x1000, 2, 0x1001)
 	pmt := modelPMT(1, 0x100, 4)
@@ -128,6 +142,9 @@ func checkC09(c *mc.Ctx) {
 	c.Ev.Rule = "demux side: reference-encoded sections of the six table types x every single-bit flip, every byte x {0x00,0xFF,+1}, every burst of 2..32 bits at every bit offset (two patterns), truncation at every length, extension by 1..8 bytes; the real Demuxer's outcome is compared with an independent section validator (framing + CRC_32 by bit-serial LFSR); mux side: every PMT of a bounded family (0..N streams, every descriptor model that fits) and the PAT emitted by the real Muxer is validated (section_length, CRC_32) and compared with the reference encoding; distinct_nontrivial = distinct corruptions / PMT contents"
 	c.Ev.Assumptions = append(c.Ev.Assumptions, "a corruption that yields a different section with a valid CRC (probability 2^-32 per case) is undecidable by this oracle and counted, not judged")
 	bases := c09Bases()
+	if c.Thorough() {
+		bases = append(bases, c09MoreBases()...)
+	}
 	for bi := range bases {
 		b := &bases[bi]
 		unit := PSIUnit(b.PID, 0, b.Secs, nil).Bytes
@@ -184,6 +201,22 @@ func checkC09(c *mc.Ctx) {
 				}
 			}
 		}
+		// every pair of bit flips (CRC-32 detects all double errors in messages this short); quick: units
+		// up to 64 bytes, thorough: all units
+		if len(unit) <= 64 || c.Thorough() {
+			nb := len(unit) * 8
+			for b1 := 0; b1 < nb; b1++ {
+				for b2 := b1 + 1; b2 < nb; b2++ {
+					b1, b2 := b1, b2
+					muts = append(muts, mut{fmt.Sprintf("flip bits %d and %d", b1, b2), func() []byte {
+						x := append([]byte{}, unit...)
+						x[b1/8] ^= 0x80 >> uint(b1%8)
+						x[b2/8] ^= 0x80 >> uint(b2%8)
+						return x
+					}})
+				}
+			}
+		}
 		for n := 1; n < len(unit); n++ {
 			n := n
 			muts = append(muts, mut{fmt.Sprintf("truncate to %d", n), func() []byte { return unit[:n] }})
@@ -203,7 +236,7 @@ func checkC09(c *mc.Ctx) {
 		})
 		c.Ev.DistinctAdd(done)
 		c.Ev.AddScenario(mc.Scenario{Name: "demux:" + b.Name, SpaceSize: total, Executed: done, Exhaustive: done == total,
-			Bound: fmt.Sprintf("unit of %d bytes: every bit flip, every byte x 3 substitutions, bursts 2..32 bits (2 patterns), every truncation, extensions 1..8 x 4 fills", len(unit))})
+			Bound: fmt.Sprintf("unit of %d bytes: every bit flip, every pair of bit flips (quick: units <= 64 bytes), every byte x 3 substitutions, bursts 2..32 bits (2 patterns), every truncation, extensions 1..8 x 4 fills", len(unit))})
 	}
 	c09Mux(c)
 	c.Ev.Require("unit-still-valid", "unit-rejected-by-reference", "mux-pmt-validated", "mux-pmt-too-large")
